@@ -149,8 +149,8 @@ class EditableModule(object):
             self._unique_params_maps = {}
             self._number_of_params = {}
 
-        if methodname in self._unique_params_idxs:
-            return self._unique_params_idxs[methodname]
+        # the map is rebuilt from the tensors the object holds now: which slots
+        # share a tensor can change during the lifetime of the object
         if allparams is None:
             allparams = self.getparams(methodname)
 
